@@ -101,13 +101,17 @@ def rule_builder(ck: Check, repo: Repo) -> None:
     fn = repo.func(q)
     ck.analysed_fn(q)
 
+    anchored: list = []
+
     class H(Hooks):
         def atom(self, text, node, it):
             if text == "'\\n' in statement":
                 return "newline"
             if text == "_COPYRIGHT_PREFIXES.get(copyright_prefix) is None":
                 return "unknown_prefix"
-            if text == "any(pattern.search(statement) is not None for pattern in _COPYRIGHT_PATTERNS)":
+            m = re.fullmatch(r"any\((\w+)\.(match|fullmatch|search)\(statement\)( is not None)? for \1 in _COPYRIGHT_PATTERNS\)", text)
+            if m:
+                anchored.append(m.group(2))
                 return "is_notice"
             if text == "year is not None":
                 return "has_year"
@@ -130,6 +134,12 @@ def rule_builder(ck: Check, repo: Repo) -> None:
 
     leaves = tabulate(fn, H(), ref)
     r.floor(5, "paths through make_copyright_line", got=len(leaves))
+    # 'already a notice' means: BEGINS with a copyright tag.  search() also accepts a holder that merely contains the word
+    r.instance("notice-test", {"method": sorted(set(anchored))})
+    if "search" in anchored:
+        r.violation(q, "a statement that merely CONTAINS a copyright tag is taken for a complete notice",
+                    "`pattern.search(statement)`: the holder 'The Copyright Holders' is returned without prefix and year; the reader"
+                    " then takes 'Copyright Holders' for the notice and 'The ' is lost at the next merge", repo.loc(fn))
     for d, leaf, expected in leaves:
         got = leaf.outcome[:2]
         r.instance("path:" + show_valuation(d), {"valuation": show_valuation(d), "outcome": got})
